@@ -32,8 +32,23 @@ pub proof fn lemma_width_vs_tabs(s: Seq<char>)
     decreases s.len(),
 {
     if s.len() > 0 {
-        lemma_width_vs_tabs(s.drop_last());
-        assert((count_tabs(s.drop_last()) + 1) * (tabw() - 1) == count_tabs(s.drop_last()) * (tabw() - 1) + (tabw() - 1)) by (nonlinear_arith);
+        let p = s.drop_last();
+        lemma_width_vs_tabs(p);
+        let c0 = count_tabs(p) as int;
+        let t = tabw() - 1;
+        assert(disp_width(p) == p.len() + c0 * t);
+        if s.last() == '\t' {
+            assert(count_tabs(s) as int == c0 + 1);
+            assert((c0 + 1) * t == c0 * t + t) by (nonlinear_arith);
+            assert(disp_width(s) == disp_width(p) + tabw());
+        } else {
+            assert(count_tabs(s) as int == c0);
+            assert(disp_width(s) == disp_width(p) + 1);
+        }
+        assert(disp_width(s) == s.len() + (count_tabs(s) as int) * t);
+    } else {
+        assert(count_tabs(s) == 0 && disp_width(s) == 0);
+        assert((count_tabs(s) as int) * (tabw() - 1) == 0) by (nonlinear_arith) requires count_tabs(s) == 0;
     }
 }
 pub proof fn lemma_width_le(s: Seq<char>)
